@@ -456,6 +456,18 @@ class Check(BaseCheck):
                         if got is None:
                             break
                         if dt > self.CPU_LIMIT and prev is not None and dt > 3 * prev[1]:
+                            # measured once more before it counts (the smaller of two runs each): a collector pause in one call is not growth
+                            def once(k):
+                                p.set_variable('v_big', layouts[lay](k))
+                                t1 = time.thread_time()
+                                self.guarded(p, f, 8 + k, {'kind': 'size-scaling', 'function': fn, 'layout': lay, 'cells': k})
+                                return time.thread_time() - t1
+                            half, full = min(prev[1], once(prev[0])), min(dt, once(n))
+                            rec.count('size_scaling_suspects_remeasured')
+                            if not (full > self.CPU_LIMIT and full > 3 * half):
+                                prev = (n, round(full, 4))
+                                continue
+                            dt, prev = full, (prev[0], round(half, 4))
                             rec.violation('C01/cpu-time-grows-faster-than-the-size-of-a-host-value:' + lay, formula=f, cells=n, cpu_seconds=round(dt, 3), half_the_cells=prev, layout=lay)
                             break
                         if dt > 8 * self.CPU_LIMIT:
@@ -485,6 +497,29 @@ class Check(BaseCheck):
                         rec.nt((f, i, debug))
                     rec.cov('passthrough_value_types', type(v).__name__)
         rec.sample({'formula': 'IF(TRUE,v_a,1)', 'v_a': 'every pool value in turn', 'what': 'host values as the value of the formula'})
+        # a record belongs to the caller: whatever the caller does to it (annotate it, overwrite its entries), the next record - of this
+        # parser or of any other - is a record of exactly two entries again, and a different object
+        import hotxlfp
+        XL = hx.errors().XLError
+        for f in ('', ' ', '1', '""', 'A1', 'foo', '1/0', 'nosuch', '1+', '{1,2}', 'lst', 'NULL', 'TRUE', 'Q77'):
+            q = self.mkparser()
+            r1 = self.guarded(q, f, 8, {'kind': 'record-ownership', 'formula': f})
+            if r1 is None or not isinstance(r1[0], dict):
+                continue
+            r1 = r1[0]
+            first = canon(r1['result']), r1['error']
+            r1['cell'] = 'B1'
+            r1['error'] = '#N/A'
+            r1['result'] = XL('#N/A')
+            for who, other in (('same-parser', q), ('new-parser', self.mkparser()), ('plain-parser', hotxlfp.Parser())):
+                r2 = self.guarded(other, f, 8, {'kind': 'record-ownership', 'formula': f, 'who': who})
+                if r2 is None or who == 'plain-parser' or not isinstance(r2[0], dict):
+                    continue
+                r2 = r2[0]
+                ok = r2 is not r1 and (canon(r2['result']), r2['error']) == first
+                if not ok:
+                    rec.violation('C01/record-is-shared-with-an-earlier-call', formula=f, who=who, same_object=r2 is r1, record=r2, first=first)
+                rec.nt(('own', f, who))
 
     # ------------------------------------------------------------------ 2. functions x arities
     def c_arities(self, spec, rec):
